@@ -76,6 +76,41 @@ def run():
         open(d3, "w").write(json.dumps(ev3) + "\n")
         report.append(_expect_reject("SearchAudit", "SearchAudit.cfg", d3, lambda e: True, 1, "C05_value_is_minimax",
                                      "reported root score changed by one centipawn"))
+        # ---- SearchTrace: step-level trace of a real search (one interruption first), one field changed / one event dropped
+        sd = os.path.join(work, "steps")
+        os.makedirs(sd, exist_ok=True)
+        vlib.run_harness(exe, ["search-steps", "--out-dir", sd, "--positions", 1, "--depth", 2, "--aborts", 1, "--seed", 11])
+        case = json.load(open(os.path.join(sd, "case_0.json")))
+
+        def step_run(c, name):
+            q = os.path.join(sd, name)
+            json.dump(c, open(q, "w"))
+            return vlib.run_tlc("SearchTrace", "SearchTrace.cfg", env={"TRACE": q}, workers=1, deque=True, timeout=900, xmx="3g")
+        r0 = step_run(case, "orig.json")
+        if r0.rejected_at is not None or not r0.clean:
+            raise ToolError("selftest: the unmodified step trace is rejected by SearchTrace.tla")
+        xs = [i for i, e in enumerate(case["events"]) if e["e"] == "X" and e["k"] == "done"]
+        c1 = copy.deepcopy(case)
+        c1["events"][xs[len(xs) // 2]]["s"] += 1
+        r1 = step_run(c1, "score.json")
+        ns = [i for i, e in enumerate(case["events"]) if e["e"] == "N" and e["ply"] > 0]
+        c2 = copy.deepcopy(case)
+        c2["events"][ns[len(ns) // 2]]["b"] -= 1
+        r2 = step_run(c2, "window.json")
+        c3 = copy.deepcopy(case)
+        del c3["events"][xs[0]]
+        r3 = step_run(c3, "dropped.json")
+        c4 = copy.deepcopy(case)
+        tt_ev = [e for e in c4["events"] if e["e"] == "R"][-1]
+        tt_ev["tt"][0][3] = "L" if tt_ev["tt"][0][3] != "L" else "U"
+        r4 = step_run(c4, "table.json")
+        for rr, at, what in ((r1, xs[len(xs) // 2] + 1, "returned score of one node changed by one"),
+                             (r2, ns[len(ns) // 2] + 1, "beta handed to one child changed by one"),
+                             (r3, xs[0] + 1, "one return event dropped"),
+                             (r4, len(case["events"]), "bound label of one dumped table entry changed")):
+            if rr.rejected_at != at:
+                raise ToolError("selftest: step trace with %s: rejected at %s, expected %d" % (what, rr.rejected_at, at))
+            report.append({"what": "SearchTrace: " + what, "rejected_at_event": rr.rejected_at, "events": len(case["events"])})
         # ---- Search.tla regression model
         r = vlib.run_tlc("Search", "Search_regress_store_on_abort.cfg", workers=vlib.NCPU, xmx="12g", timeout=1800)
         bad = [x for x in r.errors if "Invariant" in x]
